@@ -68,18 +68,18 @@ def overflowing(F, R):
     dom(R, push, w, sites_of(st), 'slot-write<release-store(write_position)', 'slot contents written before publication')
     dom(R, push, sites_of(st), sites_of(cas), 'store(write_position)<CAS(read_position)', 'new element is visible before the oldest one is evicted')
     dom(R, push, sites_of(cas), rd, 'CAS(read_position)<read-of-evicted-slot', 'evicted value is taken only after winning the CAS')
-    # the evicted slot is read only on the CAS-Ok arm
+    # the evicted slot is read only on the CAS-Ok arm (match, if-let, .is_ok() or !.is_err() -- all the same decision)
     for c in sites_of(cas):
-        ok = False
-        for b in range(len(push.blocks)):
-            t = push.blocks[b]['t']
-            if t[0] != 'switch':
-                continue
-            p = push.prov_operand(t[1])
-            if p.root[0] == 'call' and (p.root[1].callee or '').endswith('::is_ok') and push.prov_operand(p.root[1].args[0]).root == ('call', c) or \
-               (p.root[0] == 'call' and (p.root[1].callee or '').endswith('::is_ok') and push.prov_operand(p.root[1].args[0]).root[0] == 'call' and push.prov_operand(p.root[1].args[0]).root[1].key() == c.key()):
-                tt, ff = lib.bool_switch_arms(push, b)
-                ok = all(push.edge_dominates(b, tt, r.b) for r in rd) and bool(rd)
+        ok = bool(rd)
+        for r in rd:
+            under = False
+            for b in lib.switches_on_result_of(push, c, lib.TRY_BRANCH):
+                for lab, tgt in lib.arm_blocks(push, b, lambda l: l == 'Ok', F):
+                    under |= push.edge_dominates(b, tgt, r.b)
+            for b, arms in lib.result_test_switches(push, c):
+                if arms['Ok'] != arms['Err']:
+                    under |= push.edge_dominates(b, arms['Ok'], r.b)
+            ok &= under
         R.ob('ONLY-UNDER', 'ONLY-UNDER::%s::evicted-slot-read-under-CAS-ok' % fnkey(push), ok,
              'the read of the evicted slot lies on the is_ok() arm of the read_position CAS', c.where, push)
     # --- pop
